@@ -124,6 +124,7 @@ Expressible(p) ==
         /\ (IsEndian(i.opc) \/ Canon(i) = i)
         /\ (IsEndian(i.opc) => i.src = 0 /\ i.off = 0 /\ i.imm \in {16, 32, 64})
         /\ (i.opc # LDDW => i.imm >= 0)
+        /\ (i.opc = CALL => i.src \in {0, 1})
         /\ (i.opc = LDDW => k < Len(p) /\ p[k+1].opc = 0 /\ p[k+1].dst = 0 /\ p[k+1].src = 0 /\ p[k+1].off = 0)
 
 CanonProg(p) ==
